@@ -24,6 +24,7 @@ EDITS = {
     "V-R2": "from_keyframes: `for keyframe in keyframes.into_iter()` -> `for keyframe in it: keyframes.into_iter()` + spliced `invariant` block",
     "V-R3": "return types named: `-> T` -> `-> (r: T)`; requires/ensures inserted between signature and body",
     "V-R4": "#[derive(..)] and doc comments on the extracted structs dropped; `pub(super)` field visibility of Keyframe -> `pub`",
+    "V-R6": "a closure passed to Option::map gets a return-type name and an `ensures` clause (`|x| e` -> `|x| -> (p: T) ensures p == e { e }`); the body expression is unchanged",
     "V-R5": "`Data: 'a + Clone + Debug` -> `Data: 'a + Clone` (Debug is unused by the body and has no Verus spec)",
 }
 
@@ -69,6 +70,10 @@ def parse_contracts(path):
         m = re.match(r"fn (\S+) (contract|invariant)$", h)
         if m:
             out.append({"fn": m.group(1), "kind": m.group(2), "text": "\n".join(s["text"]).rstrip() + "\n"})
+            continue
+        m = re.match(r"fn (\S+) annotate-closure (.*)$", h)
+        if m:
+            out.append({"fn": m.group(1), "kind": "closure", "anchor": m.group(2), "text": "\n".join(s["text"]).strip()})
             continue
         m = re.match(r"fn (\S+) splice (before|after) (.*)$", h)
         if m:
@@ -162,6 +167,13 @@ def assemble(repo=None, contracts_path=None, prelude_path=None, mutate=None):
                     raise Undecided("anchor lost: for loop header in %s (V-R2)" % qual)
                 body2 = body2.replace(a, "for keyframe in it: keyframes.into_iter()\n" + c["text"] + "        {", 1)
                 report["edits_applied"].append("V-R2")
+            elif c["kind"] == "closure":
+                # V-R6: `|args| body` -> `|args| -> (ret) ensures .. { body }`; the section text is the annotated form and
+                # must contain the original closure text verbatim as its body
+                if body2.count(c["anchor"]) != 1 or c["anchor"].split("|")[-1].strip() not in c["text"]:
+                    raise Undecided("anchor lost: closure %r in %s" % (c["anchor"], qual))
+                body2 = body2.replace(c["anchor"], c["text"], 1)
+                report["edits_applied"].append("V-R6 %s" % qual)
             elif c["kind"] == "splice":
                 if body2.count(c["anchor"]) != 1:
                     raise Undecided("anchor lost (%d matches): %r in %s" % (body2.count(c["anchor"]), c["anchor"], qual))
